@@ -4,8 +4,11 @@ import OFCore.Drv.Per
 Line protocol handler for the `dmp` domain (property C19). One self-contained case per line:
 
 ```
-dmp rt <npost> <token> <token> …      -> OK <P…> <A…> F|<paths> C|<flags>   |  ERR  |  BAD
+dmp rt  <npost> <token> <token> …     -> OK <P…> <A…> F|<paths> C|<flags>   |  ERR [F|<paths>]  |  BAD
+dmp rt2 <npost> <token> <token> …     -> the same after dump, restore, dump of the restored simulation, restore
 ```
+
+`ERR` alone: `dump_simulation` raised; `ERR F|<paths>`: the dump was written, `restore_simulation` raised.
 
 The tokens describe a rule system and the state of a simulation (fields separated by `|`):
 
@@ -20,6 +23,10 @@ The tokens describe a rule system and the state of a simulation (fields separate
 * `H|<var>|<0|1>`                    a holder (1 = it has a disk store)
 * `A|<var>|<M|D>|<period>|<vec>`     an array held in the memory (M) or disk (D) store;
                                      `<period>` = `unit/y,m,d/size`
+* `T|stale`                          the directory dumped into is not empty (an older dump)
+* `X|<var>|x<hex>` / `XF|x<hex>` / `XD|<var>`   after the dump: a foreign file or sub-directory
+                                     inside `<var>/`; a foreign top-level entry; an empty
+                                     top-level directory named after a variable
 
 `<vec>` = `i:<ints>` | `f:<p/q,…>` | `b:<T|F,…>` | `s:<x<hex>,…>` | `y<w>:<x<hex>,…>` |
 `d:<ordinals>` | `e:<Name>/<item>/…:<indices>`.
@@ -115,11 +122,19 @@ def dmpVal? (tok : String) : Option Val :=
   | some (.enum e [i]) => some (.enum e i)
   | _ => none
 
+/-- what is done to the directory between the dump and the restore -/
+inductive DmpTamper
+  | inVar (var : String) (name : List Char)     -- `X|var|x<hex>`: a file or sub-directory inside `<var>/`
+  | top (name : String)                         -- `XF|x<hex>`: a top-level entry (restore reads it as a variable name)
+  | dir (var : String)                          -- `XD|var`: an empty top-level directory named after a variable
+
 structure DmpState where
   ents : List EntityDecl := []
   vars : List VarDecl := []
   pops : List Pop := []
   holders : List Holder := []
+  stale : Bool := false                         -- `T|stale`: the target directory is not empty
+  tamper : List DmpTamper := []
 
 def dmpRoles (keys : List String) : List Role :=
   (List.range keys.length).zip keys |>.map (fun (i, k) => ⟨k, i⟩)
@@ -165,7 +180,24 @@ def dmpToken (st : DmpState) (tok : String) : Option DmpState :=
               else if md = "D" then h.disk.map (fun d => { h with disk := some (upsert d p v) })
               else none)
     pure { st with holders := setHolderIn st.holders h' }
+  | ["T", "stale"] => some { st with stale := true }
+  | ["X", var, name] => do
+    let n ← dmpHexStr? name
+    let cs ← unhex n
+    pure { st with tamper := st.tamper ++ [.inVar var cs] }
+  | ["XF", name] => do
+    let n ← dmpHexStr? name
+    let cs ← unhex n
+    pure { st with tamper := st.tamper ++ [.top (String.ofList cs)] }
+  | ["XD", var] => some { st with tamper := st.tamper ++ [.dir var] }
   | _ => none
+
+def dmpTamper (fs : FS) (t : DmpTamper) : FS :=
+  match t with
+  | .inVar var name =>
+    { fs with vars := upsert fs.vars var (((alookup var fs.vars).getD []) ++ [(name, .ints [])]) }
+  | .top name => { fs with vars := upsert fs.vars name ((alookup name fs.vars).getD []) }
+  | .dir var => { fs with vars := upsert fs.vars var ((alookup var fs.vars).getD []) }
 
 def dmpShowPop (p : PopView) : String :=
   let showRole : RoleVal → String
@@ -194,9 +226,14 @@ def dmpPaths (fs : FS) : List String :=
     fs.vars.flatMap (fun (k, d) =>
       if d.isEmpty then [s!"{k}/"] else d.map (fun (f, _) => s!"{k}/{String.ofList f}")))
 
+def dmpShowSim (r : Sim) (fs : FS) (n : Nat) : String :=
+  " ".intercalate (["OK"] ++ r.pops.map (fun p => dmpShowPop p.view) ++ dmpArrays r ++
+    ["F|" ++ ";".intercalate (dmpPaths fs), "C|" ++ String.ofList (List.replicate n 'A')])
+
 def handleDmp (args : List String) : String :=
   match args with
-  | "rt" :: npost :: toks =>
+  | mode :: npost :: toks =>
+    if mode ≠ "rt" ∧ mode ≠ "rt2" then "BAD" else
     match npost.toNat?, toks.foldlM dmpToken ({} : DmpState) with
     | some n, some st =>
       match st.ents with
@@ -204,14 +241,22 @@ def handleDmp (args : List String) : String :=
         if !person.isPerson ∨ groups.any (·.isPerson) then "BAD" else
         let sys : System := ⟨person, groups, st.vars⟩
         let s : Sim := ⟨st.pops, st.holders⟩
-        match dumpInto {} s with
+        let target : FS := if st.stale then { vars := [("stale", [])] } else {}
+        match dumpInto target s with
         | .error _ => "ERR"
         | .ok fs =>
-          match restore sys fs with
-          | .error _ => "ERR"
+          match restore sys (st.tamper.foldl dmpTamper fs) with
+          | .error _ => "ERR F|" ++ ";".intercalate (dmpPaths fs)
           | .ok r =>
-            " ".intercalate (["OK"] ++ r.pops.map (fun p => dmpShowPop p.view) ++ dmpArrays r ++
-              ["F|" ++ ";".intercalate (dmpPaths fs), "C|" ++ String.ofList (List.replicate n 'A')])
+            if mode = "rt" then dmpShowSim r fs n
+            else
+              -- dump the restored simulation again, restore that
+              match dumpInto {} r with
+              | .error _ => "ERR2"
+              | .ok fs2 =>
+                match restore sys fs2 with
+                | .error _ => "ERR2 F|" ++ ";".intercalate (dmpPaths fs2)
+                | .ok r2 => dmpShowSim r2 fs2 n
       | [] => "BAD"
     | _, _ => "BAD"
   | _ => "BAD"
